@@ -4,14 +4,14 @@
 EXTENDS Order, Json, IOUtils
 MaxLen == atoi(IOEnv.MAXLEN)
 Fin == { O_Num(0 - 2, FALSE), O_Num(0 - 1, FALSE), O_NZ, O_PZ, O_Num(1, FALSE), O_Num(2, FALSE) }
-All == Fin \cup { O_NInf, O_PInf }
+All == Fin \cup { O_NInf, O_PInf, O_PMax }
 \* all vectors over S of length exactly n / at most n
 RECURSIVE VecsN(_, _)
 VecsN(S, n) == IF n = 0 THEN { <<>> } ELSE { Append(v, x) : v \in VecsN(S, n - 1), x \in S }
 Vecs(S, n) == UNION { VecsN(S, k) : k \in 0..n }
 CmpDom == Vecs(All, IF MaxLen > 2 THEN 2 ELSE MaxLen) \cup Vecs(Fin, MaxLen)
 AlgDom == Vecs(Fin, MaxLen)
-LawDom == Vecs({ O_NInf, O_Num(0 - 1, FALSE), O_NZ, O_PZ, O_Num(1, FALSE) }, 2)
+LawDom == Vecs({ O_NInf, O_Num(0 - 1, FALSE), O_NZ, O_PZ, O_Num(1, FALSE), O_PMax }, 2)
 \* --- laws on the model: total order of insertion costs, inverse of + and -
 ASSUME \A x \in LawDom : O_CmpCost(x, x) = 0
 ASSUME \A x, y \in LawDom : O_CmpCost(x, y) = 0 - O_CmpCost(y, x)
